@@ -96,6 +96,8 @@ def stmts_src(stmts, root, ind):
         elif k == "implies":
             out.append(pad + "with vsc.implies(%s):" % expr_src(s[1], root))
             out += stmts_src(s[2], root, ind + 1)
+        elif k == "unique_vec":
+            out.append(pad + "vsc.unique_vec(%s)" % ", ".join(expr_src(["f", x], root) for x in s[1]))
         elif k == "unique":
             out.append(pad + "vsc.unique(%s)" % ", ".join(expr_src(x, root) for x in s[1]))
         elif k == "solve_order":
@@ -352,7 +354,39 @@ class Env(object):
             st[n] = getattr(em, n, None) if not callable(getattr(em, n, None)) else None
         return st
 
+    def busy(self):
+        """field models that - with no call in progress - are still flagged as solved-for or still hold a solver node
+        (every object the scenario created; names as the library prints them)"""
+        out = []
+        seen = set()
+
+        def walk(m):
+            if id(m) in seen:
+                return
+            seen.add(id(m))
+            if getattr(m, "is_used_rand", False):
+                out.append("used_rand:" + str(getattr(m, "fullname", getattr(m, "name", "?"))))
+            if getattr(m, "var", None) is not None:
+                out.append("var:" + str(getattr(m, "fullname", getattr(m, "name", "?"))))
+            for f in getattr(m, "field_l", []) or []:
+                walk(f)
+            sz = getattr(m, "size", None)
+            if sz is not None and hasattr(sz, "is_used_rand"):
+                walk(sz)
+        for o in self.vars.values():
+            try:
+                walk(o.get_model())
+            except Exception:  # noqa
+                pass
+        return out[:12]
+
     def run_op(self, op):
+        r = self.run_op_(op)
+        if isinstance(r, dict):
+            r["busy"] = self.busy()
+        return r
+
+    def run_op_(self, op):
         k = op["op"]
         if k == "new":
             o = self.ns[op["cls"]]()
